@@ -463,7 +463,8 @@ def level_capacity(facts):
                             break
                     if sink is None:
                         continue
-                    key = "quantiles_sketch::%s:%s-reserved#%d" % (fn["name"], v.get("n"), idx[0])
+                    form = "(stream)" if any("basic_istream" in (pm.get("t") or "") for pm in fn.get("params", [])) else ("(bytes)" if fn.get("params") and (fn["params"][0].get("t") or "").startswith("const void") else "")
+                    key = "quantiles_sketch::%s%s:%s-reserved#%d" % (fn["name"], form, v.get("n"), idx[0])
                     idx[0] += 1
                     n += 1
                     if reserved:
